@@ -72,6 +72,16 @@ func ParseRaceLog(s string) []RaceReport {
 						}
 						rep.Stacks[idx] = append(rep.Stacks[idx], frameName(f))
 					}
+					if strings.HasPrefix(f, "verif/props.mutateRendered(") && rep.Via[idx] == "" {
+						// C17's writes through the public structs of a document a render returned: each task mutates only documents
+						// it was handed, so memory two of them reach is shared between two renderings (or with the base document)
+						rep.Via[idx] = "mutateRendered"
+					}
+					if strings.HasPrefix(f, "verif/props.(*digester).walk(") && rep.Via[idx] == "" {
+						// the purity digest only reads base documents, data and templates; a harness write it conflicts with can only be
+						// mutateRendered's, i.e. a rendered document reaches into what it was rendered from
+						rep.Via[idx] = "purity-digest"
+					}
 					if strings.HasPrefix(f, "verif/world.") && rep.Via[idx] == "" {
 						v := strings.TrimPrefix(f, "verif/world.")
 						if k := strings.Index(v, "("); k > 0 && !strings.HasPrefix(v, "(") {
